@@ -151,7 +151,8 @@ func redactEventJSON[T unredactableEvent](eventJSON []byte, unredactableEvent T,
 	// Unmarshalling into a struct will discard any extra fields from the event.
 	// unredactableEvent already is a pointer: unmarshalling into its address would
 	// let the JSON text "null" set it to nil.
-	if err := json.Unmarshal(eventJSON, unredactableEvent); err != nil {
+	// The keys to keep are matched by their exact name only.
+	if err := unmarshalExact(eventJSON, unredactableEvent); err != nil {
 		return nil, err
 	}
 	newContent := map[string]spec.RawJSON{}
